@@ -295,6 +295,65 @@ static VO round_trip(const VO& s, Rng& r, const char* fam) {
   return VO::deserialize(ss);
 }
 
+// ---------------------------------------------------------------- assignment (copy / move / self / chains)
+static uint32_t pick_k(Rng& r, uint32_t kmax);
+
+static bool same_readout(const VO& a, const VO& b) {
+  if (a.get_n() != b.get_n() || a.get_k() != b.get_k() || a.get_num_samples() != b.get_num_samples()) return false;
+  const ReadOut x = read_out(a), y = read_out(b);
+  return x.items == y.items;
+}
+
+// a sketch in an unrelated state (other k, resize factor, fill) to be assigned over
+static std::unique_ptr<VO> make_other_sketch(Rng& r) {
+  const uint32_t k = pick_k(r, 300);
+  std::unique_ptr<VO> t(new VO(k, static_cast<resize_factor>(r.below(4))));
+  uint64_t n2 = 0;
+  switch (r.below(3)) { case 0: n2 = 0; break; case 1: n2 = r.below(k + 1); break; default: n2 = std::min<uint64_t>(600, k + 1 + r.below(3ull * k + 1)); break; }
+  for (uint64_t i = 0; i < n2; ++i) { const double w = 0.01 + 10 * r.unit(); t->update(mk(new_id(w)), w); }
+  count(n2 == 0 ? "assign_target_empty" : (n2 <= k ? "assign_target_exact" : "assign_target_sampling"));
+  return t;
+}
+
+// Assign the monitored sketch over other sketches (copy, chain, self through a reference, move), observe the
+// targets against the SOURCE's model, then apply identical updates with the same pinned seed to source and
+// target: the read-outs must stay equal.  Returns false if the library threw.
+static bool sketch_assignment_probe(Rng& r, std::unique_ptr<VO>& sk, SkModel& m) {
+  const std::string ctx0 = "k=" + std::to_string(m.k) + " n=" + std::to_string(m.n);
+  try {
+    std::unique_ptr<VO> t = make_other_sketch(r);
+    const uint64_t kind = r.below(4);
+    if (kind == 0) { *t = *sk; count("assign_copy"); observe_sketch(*t, m, "copy assignment (target)"); }
+    else if (kind == 1) {
+      std::unique_ptr<VO> t2 = make_other_sketch(r);
+      *t = *t2 = *sk; count("assign_chain");
+      observe_sketch(*t2, m, "chained copy assignment (middle)"); observe_sketch(*t, m, "chained copy assignment (left)");
+    } else if (kind == 2) {
+      VO& ref = *sk; *sk = ref; count("assign_self");
+      observe_sketch(*sk, m, "self copy assignment");
+      *t = *sk; observe_sketch(*t, m, "copy assignment after self assignment");
+    } else { VO tmp(*sk); *t = std::move(tmp); count("assign_move"); observe_sketch(*t, m, "move assignment (target)"); }
+    if (m.n > m.k) count("assign_source_sampling"); else count("assign_source_exact");
+    observe_sketch(*sk, m, "assignment (source must be unchanged)");
+    VF_CHECK(same_readout(*sk, *t), "sketch|assignment|target-readout-differs-from-source", ctx0);
+    // identical continued updates under the same pinned seed
+    const uint64_t cnt = 1 + r.below(std::min<uint64_t>(200, 2ull * m.k + 5));
+    const double scale = m.n ? static_cast<double>(m.total / m.n) : 1.0;
+    std::vector<std::pair<uint64_t, double>> seq;
+    for (uint64_t i = 0; i < cnt; ++i) { const double w = scale * (r.chance(0.1) ? 5 + 20 * r.unit() : 0.05 + 2 * r.unit()); if (w > 0 && std::isfinite(w)) seq.emplace_back(new_id(w), w); }
+    const uint64_t X = r.next();
+    random_utils::rand.seed(X); for (auto& q : seq) sk->update(mk(q.first), q.second);
+    random_utils::rand.seed(X); for (auto& q : seq) t->update(mk(q.first), q.second);
+    for (auto& q : seq) { m.n++; m.total += q.second; m.ids.push_back(q.first); }
+    if (m.exact_arith) m.exact_arith = false;   // the continuation weights are not dyadic
+    VF_CHECK(same_readout(*sk, *t), "sketch|assignment|diverges-from-source-under-identical-updates", ctx0 + " updates=" + std::to_string(seq.size()));
+    observe_sketch(*t, m, "identical updates after assignment (target)");
+    count("assign_continued_equal");
+    if (r.coin()) sk = std::move(t);     // carry on with either object
+  } catch (const std::exception& e) { checked(); fail("sketch|assignment|throws", ctx0 + " what=" + e.what()); return false; }
+  return true;
+}
+
 // ---------------------------------------------------------------- feeding a stream
 struct Feed {
   uint32_t k; int rf; uint64_t n; int kind;
@@ -313,8 +372,11 @@ static bool feed_stream(Rng& r, std::unique_ptr<VO>& sk, SkModel& m, const Feed&
     bool observe_now = f.obs_every && ((i % f.obs_every) == 0);
     const char* what = "update";
     if (f.hostile_ops && r.chance(0.02)) {
-      const uint64_t op = r.below(10);
-      if (op < 3) {            // zero weight: documented as ignored
+      const uint64_t op = r.below(12);
+      if (op >= 10) {
+        if (!sketch_assignment_probe(r, sk, m)) return false;
+        what = "assignment probe"; observe_now = true;
+      } else if (op < 3) {            // zero weight: documented as ignored
         const uint64_t id = new_id(0.0);
         try { sk->update(mk(id), r.coin() ? 0.0 : -0.0); } catch (const std::exception& e) { checked(); fail("sketch|update|zero-weight-throws", e.what()); }
         count("zero_weight_updates"); what = "zero-weight update"; observe_now = true;
@@ -412,7 +474,8 @@ static void stream_case(Rng& r) {
   std::unique_ptr<VO> sk(new VO(f.k, static_cast<resize_factor>(f.rf)));
   SkModel m; m.k = f.k;
   ReadOut last;
-  const bool okf = feed_stream(r, sk, m, f, &last);
+  bool okf = feed_stream(r, sk, m, f, &last);
+  if (okf && r.chance(0.3)) { okf = sketch_assignment_probe(r, sk, m); if (okf) last = observe_sketch(*sk, m, "after assignment probe"); }
   if (okf) {
     if (f.k == 1 && m.n > 1) count("k1_sampling");
     // final round trip: the deserialized sketch must satisfy the same clauses
@@ -601,6 +664,40 @@ static void union_case(Rng& r) {
       catch (const std::exception& e) { checked(); fail("union|round-trip|throws", d + " step=" + std::to_string(step) + " what=" + e.what()); return; }
     }
     if (r.chance(0.08)) { if (r.coin()) { std::unique_ptr<VU> t(new VU(*u)); u = std::move(t); } else { VU t(1); t = std::move(*u); u.reset(new VU(std::move(t))); } count("union_copy_or_move"); }
+    if (r.chance(0.15)) {
+      // assignment between union objects in different states: copy / chain / self through a reference / move
+      try {
+        auto other_union = [&]() { std::unique_ptr<VU> t(new VU(static_cast<uint32_t>(r.range(1, 300)))); if (r.coin()) t->update(*ins[order[r.below(step + 1)]].sk); return t; };
+        std::unique_ptr<VU> t = other_union();
+        const uint64_t kind = r.below(4);
+        if (kind == 0) { *t = *u; count("union_assign_copy"); }
+        else if (kind == 1) { std::unique_ptr<VU> t2 = other_union(); *t = *t2 = *u; count("union_assign_chain"); check_union_result(*t2, um, "chained union copy assignment (middle)", nullptr, nullptr); }
+        else if (kind == 2) { VU& ref = *u; *u = ref; count("union_assign_self"); check_union_result(*u, um, "union self copy assignment", nullptr, nullptr); *t = *u; }
+        else { VU tmp(*u); *t = std::move(tmp); count("union_assign_move"); }
+        if (!check_union_result(*t, um, "union assignment (target)", nullptr, nullptr)) return;
+        auto same_results = [&](const char* when) {
+          const uint64_t X = r.next();
+          random_utils::rand.seed(X); VO ra = u->get_result();
+          random_utils::rand.seed(X); VO rb = t->get_result();
+          VF_CHECK(same_readout(ra, rb), "union|assignment|target-result-differs-from-source", d + " " + when);
+        };
+        same_results("right after assignment");
+        if (step + 1 < m) {
+          // the next input goes into both, under the same pinned seed
+          ++step;
+          UIn& nx = ins[order[step]];
+          const uint64_t X = r.next();
+          random_utils::rand.seed(X); u->update(*nx.sk);
+          random_utils::rand.seed(X); t->update(*nx.sk);
+          um.add(nx);
+          if (nx.n > 0) { if (nx.sampling) fed_sampling = true; else fed_exact = true; }
+          if (nx.n == 0) count("union_fed_empty"); else if (nx.sampling) count("union_fed_sampling"); else count("union_fed_exact");
+          same_results("after one more identical update");
+          count("union_assign_continued_equal");
+        }
+        if (r.coin()) u = std::move(t);
+      } catch (const std::exception& e) { checked(); fail("union|assignment|throws", d + " what=" + e.what()); return; }
+    }
     if (step + 1 == m || r.chance(0.6)) {
       have_result = check_union_result(*u, um, step + 1 == m ? "last update" : "update", &last_result, nullptr);
       if (!have_result) return;
